@@ -5,6 +5,7 @@ import (
 	"go/ast"
 	"go/token"
 	"go/types"
+	"golang.org/x/tools/go/ssa"
 	"sort"
 	"strings"
 )
@@ -356,4 +357,70 @@ func c13VisitOrder(p *Prog) *RuleResult {
 	}
 	r.Floor(8)
 	return r
+}
+
+// C13/R7 shape tests of the printer see through inlined enum values.
+//
+// An inlined TypeScript enum member (EInlinedEnum) is printed as its value followed by a comment.
+// Where the printer decides on parentheses from the *shape* of an operand — `**` may not have a
+// unary expression on its left, and a negative number, `void 0` and `!0` are printed as unary
+// expressions — the decision must be taken on the wrapped value, or `A.B ** 2` with `B = -1` is
+// printed as `-1 ** 2`, a syntax error.
+// Rule: in binaryExprVisitor.checkAndPrepare every type test of an operand for ENumber, EUnary,
+// EUndefined, EAwait or EBoolean is applied to a value that was unwrapped (its backward slice
+// contains the EInlinedEnum.Value load).
+func c13ShapeTestsUnwrap(p *Prog) *RuleResult {
+	r := NewRule("C13/R7 shape-tests-unwrap-inlined-enum", "operand shape tests that decide parentheses around `**` are applied to the value inside an inlined enum (a negative enum value is printed as a unary expression)")
+	fn := p.FindFunc("js_printer.(*binaryExprVisitor).checkAndPrepare")
+	if !r.Anchor("js_printer.(*binaryExprVisitor).checkAndPrepare", fn != nil) {
+		return r
+	}
+	shapes := map[string]bool{"ENumber": true, "EUnary": true, "EUndefined": true, "EAwait": true, "EBoolean": true}
+	n := 0
+	eachInstr(fn, func(b *ssa.BasicBlock, in ssa.Instruction) {
+		ta, ok := in.(*ssa.TypeAssert)
+		if !ok || !ta.CommaOk || !shapes[shortTypeName(ta.AssertedType)] {
+			return
+		}
+		// only the tests under the `**` case: dominated by e.Op == BinOpPow
+		isPow := false
+		for _, f := range factsAt(b) {
+			if bo, ok := f.Cond.(*ssa.BinOp); ok && f.True && bo.Op == token.EQL {
+				if cv, ok := constInt(bo.Y); ok && cv == c13OpConst(p, "BinOpPow") {
+					isPow = true
+				}
+			}
+		}
+		if !isPow {
+			return
+		}
+		n++
+		r.Instances++
+		key := "checkAndPrepare ** left operand test for " + shortTypeName(ta.AssertedType)
+		unwrapped := false
+		backSlice(ta.X, func(v ssa.Value) bool {
+			if fa, ok := v.(*ssa.FieldAddr); ok && namedTypeName(fa.X.Type()) == "js_ast.EInlinedEnum" {
+				unwrapped = true
+			}
+			return !unwrapped
+		})
+		if unwrapped {
+			r.OK(key, true, "applied to the operand after unwrapping EInlinedEnum")
+		} else {
+			r.Fail(key, p.Pos(ta.Pos()), "the operand's shape is tested without looking inside an inlined enum value: `A.B ** 2` with a negative (or undefined / boolean) enum value is printed as `-1 ** 2`, which does not parse")
+		}
+	})
+	r.Anchor("shape tests under the ** case", n >= 3)
+	return r
+}
+
+func c13OpConst(p *Prog, name string) int64 {
+	pk := p.ByPath[modPath+"/internal/js_ast"]
+	if pk == nil {
+		return -1
+	}
+	if v, ok := constsOfType(pk.Types, "OpCode")[name]; ok {
+		return v
+	}
+	return -1
 }
